@@ -15,10 +15,10 @@ Proof.
           = map (fun c0 => (c0, denote_tnode content c0)) ch) as ->; [|reflexivity].
   induction ch as [|x t IH]; [reflexivity|]. cbn [map]. now rewrite IH.
 Qed.
-Lemma plain_toml_eq content kind f sb eb r c missing ch :
-  plain_toml content (Node kind f sb eb r c missing ch) = plain_here content kind sb eb && forallb (plain_toml content) ch.
-Proof. cbn [plain_toml]. f_equal. Qed.
-Lemma plain_toml_child content n c : plain_toml content n = true -> In c (n_children n) -> plain_toml content c = true.
+Lemma plain_toml_eq lit content kind f sb eb r c missing ch :
+  plain_toml_gen lit content (Node kind f sb eb r c missing ch) = plain_here lit content kind sb eb && forallb (plain_toml_gen lit content) ch.
+Proof. cbn [plain_toml_gen]. f_equal. Qed.
+Lemma plain_toml_child lit content n c : plain_toml_gen lit content n = true -> In c (n_children n) -> plain_toml_gen lit content c = true.
 Proof.
   destruct n as [k f sb eb r cc m ch]. rewrite plain_toml_eq. cbn [n_children]. intros H Hin.
   apply andb_true_iff in H as [_ H]. rewrite forallb_forall in H. now apply H.
@@ -188,7 +188,7 @@ Lemma tstep_string content sb eb kids : denote_tstep content tk_string sb eb fal
   | None => TDBad
   end.
 Proof. reflexivity. Qed.
-Lemma plain_here_string content sb eb : plain_here content tk_string sb eb =
+Lemma plain_here_string content sb eb : plain_here false content tk_string sb eb =
   match slice content sb eb with
   | Some t => match quoted_inner 34 t with Some inner => no_byte 34 inner && no_byte 92 inner && no_byte 10 inner | None => false end
   | None => false
@@ -281,13 +281,13 @@ Lemma tstep_dotted content sb eb kids : denote_tstep content tk_dotted_key sb eb
   | None => TDBad
   end.
 Proof. reflexivity. Qed.
-Lemma plain_here_bare content sb eb : plain_here content tk_bare_key sb eb = match slice content sb eb with Some t => plain_key_text t | None => false end.
+Lemma plain_here_bare lit content sb eb : plain_here lit content tk_bare_key sb eb = match slice content sb eb with Some t => plain_key_text t | None => false end.
 Proof. reflexivity. Qed.
-Lemma plain_here_dotted content sb eb : plain_here content tk_dotted_key sb eb = match slice content sb eb with Some t => plain_key_text t | None => false end.
+Lemma plain_here_dotted lit content sb eb : plain_here lit content tk_dotted_key sb eb = match slice content sb eb with Some t => plain_key_text t | None => false end.
 Proof. reflexivity. Qed.
-Lemma plain_here_quoted content sb eb : plain_here content tk_quoted_key sb eb = false.
+Lemma plain_here_quoted lit content sb eb : plain_here lit content tk_quoted_key sb eb = false.
 Proof. reflexivity. Qed.
-Lemma key_node content kn k : denote_tnode content kn = TDKey k -> plain_toml content kn = true ->
+Lemma key_node lit content kn k : denote_tnode content kn = TDKey k -> plain_toml_gen lit content kn = true ->
   exists text, node_text content kn = Some text /\ k = split_on 46 text /\ existsb (beq []) k = false
   /\ ((n_kind kn = tk_bare_key /\ k = [text]) \/ (n_kind kn = tk_dotted_key /\ (2 <= length k)%nat)).
 Proof.
@@ -348,9 +348,9 @@ Lemma inline_pair content p k v : denote_tnode content p = TDPair k v -> plain_t
      /\ (forall vi, r = Some vi -> vi_ok content vi).
 Proof.
   intros H Hp. destruct (pair_inv _ _ _ _ H) as [Hk [kn [en [vn [rest [Hch [Dk [De [Ee [Dv Dr]]]]]]]]]].
-  rewrite Hch. assert (plain_toml content kn = true) as Pk by (apply (plain_toml_child content p); [exact Hp|rewrite Hch; now left]).
-  assert (plain_toml content vn = true) as Pv by (apply (plain_toml_child content p); [exact Hp|rewrite Hch; right; right; now left]).
-  destruct (key_node _ _ _ Dk Pk) as [text [Ht [Hsp [Hne Hkind]]]].
+  rewrite Hch. assert (plain_toml content kn = true) as Pk by (apply (plain_toml_child _ content p); [exact Hp|rewrite Hch; now left]).
+  assert (plain_toml content vn = true) as Pv by (apply (plain_toml_child _ content p); [exact Hp|rewrite Hch; right; right; now left]).
+  destruct (key_node _ _ _ _ Dk Pk) as [text [Ht [Hsp [Hne Hkind]]]].
   destruct (tok_node _ _ De) as [Eb [_ [Es _]]].
   destruct (val_node_kind _ _ _ Dv) as [Vb [_ [_ Vk]]].
   split.
@@ -530,9 +530,9 @@ Lemma cargo_pair_spec content p l k v :
   exists pkgs, cargo_pair content p = Some pkgs /\ map nv pkgs = dep_entry l (k, v) /\ Forall (loc_exact content) pkgs.
 Proof.
   intros H Hp Hin Hnd Hkn Hsh. destruct (pair_inv _ _ _ _ H) as [Hk [kn [en [vn [rest [Hch [Dk [De [Ee [Dv Dr]]]]]]]]]].
-  assert (plain_toml content kn = true) as Pk by (apply (plain_toml_child content p); [exact Hp|rewrite Hch; now left]).
-  assert (plain_toml content vn = true) as Pv by (apply (plain_toml_child content p); [exact Hp|rewrite Hch; right; right; now left]).
-  destruct (key_node _ _ _ Dk Pk) as [text [Ht [Hsp [Hne Hkind]]]].
+  assert (plain_toml content kn = true) as Pk by (apply (plain_toml_child _ content p); [exact Hp|rewrite Hch; now left]).
+  assert (plain_toml content vn = true) as Pv by (apply (plain_toml_child _ content p); [exact Hp|rewrite Hch; right; right; now left]).
+  destruct (key_node _ _ _ _ Dk Pk) as [text [Ht [Hsp [Hne Hkind]]]].
   destruct (tok_node _ _ De) as [Eb [Ed [Es [Ei _]]]].
   destruct (val_node_kind _ _ _ Dv) as [Vb [Vd [_ Vk]]].
   unfold cargo_pair, kind_is. rewrite Hk. change (beq tk_pair k_pair) with true. cbn [negb]. rewrite Hch. cbn [fold_opt].
@@ -665,10 +665,10 @@ Lemma cargo_table_spec content t h l :
   /\ map nv pkgs = (if existsb (path_eqb h) cargo_plain_tables then table_deps l else []) /\ Forall (loc_exact content) pkgs.
 Proof.
   intros H Hp Hok. destruct (table_inv _ _ _ _ H) as [Hk [lb [kn [rb [rest [Hch [Klb [Dl [Dk [Dr [Hl Hnd]]]]]]]]]]].
-  assert (plain_toml content kn = true) as Pk by (apply (plain_toml_child content t); [exact Hp|rewrite Hch; right; now left]).
+  assert (plain_toml content kn = true) as Pk by (apply (plain_toml_child _ content t); [exact Hp|rewrite Hch; right; now left]).
   assert (forallb (plain_toml content) rest = true) as Pr.
-  { apply forallb_forall. intros x Hx. apply (plain_toml_child content t); [exact Hp|]. rewrite Hch. right. right. right. exact Hx. }
-  destruct (key_node _ _ _ Dk Pk) as [text [Ht [Hsp [Hne Hkind]]]].
+  { apply forallb_forall. intros x Hx. apply (plain_toml_child _ content t); [exact Hp|]. rewrite Hch. right. right. right. exact Hx. }
+  destruct (key_node _ _ _ _ Dk Pk) as [text [Ht [Hsp [Hne Hkind]]]].
   unfold cargo_table, kind_is. rewrite Hk. change (beq tk_table k_table) with true. cbn [negb]. rewrite Hch.
   rewrite Klb. change (beq tk_lb k_lbracket) with true. cbn [negb].
   assert (table_name content t = Some (Some text)) as ->.
@@ -766,4 +766,96 @@ Proof.
   apply andb_true_iff in Hp as [_ Hp]. destruct m; [discriminate|]. rewrite tstep_document in Dr.
   destruct (titems_of (tkids_of content ch)) as [d'|] eqn:Ed; [|discriminate]. injection Dr as ->.
   unfold walk_cargo_toml. cbn [n_children]. exact (items_walk content ch d Ed Hp Hs Hk).
+Qed.
+
+(* ---------- C05, structural part for Cargo.toml: any document, any tree tree-sitter can produce ---------- *)
+From VL Require Import Proofs.CstProofs.
+(* a version with its location was read off a string token of the tree below [root] *)
+Definition from_string (content : bytes) (root : node) (vi : vinfo) : Prop :=
+  exists vn, in_tree vn root /\ kind_is k_string vn = true /\ string_vinfo content vn = Some vi.
+Lemma from_string_up content c n vi : In c (n_children n) -> from_string content c vi -> from_string content n vi.
+Proof. intros Hin [vn [H1 [H2 H3]]]. exists vn. split; [eapply in_tree_child; eassumption|now split]. Qed.
+Lemma scan_from content cs : forall b vi, scan_version_pair content cs b = Some (Some vi) ->
+  exists c, In c cs /\ kind_is k_string c = true /\ string_vinfo content c = Some vi.
+Proof.
+  induction cs as [|c t IH]; intros b vi H; [discriminate|]. cbn [scan_version_pair] in H.
+  destruct (kind_is k_bare_key c).
+  - destruct (node_text content c) as [k|]; [|discriminate]. cbn [bind] in H. destruct (IH _ _ H) as [c' [H1 H2]]. exists c'. split; [now right|exact H2].
+  - destruct (kind_is k_string c && b) eqn:E.
+    + apply andb_true_iff in E as [E _]. destruct (string_vinfo content c) as [v|] eqn:Ev; [|discriminate]. cbn in H. injection H as <-.
+      exists c. split; [now left|now split].
+    + destruct (IH _ _ H) as [c' [H1 H2]]. exists c'. split; [now right|exact H2].
+Qed.
+Lemma inline_version_from content tbl ps : (forall p, In p ps -> In p (n_children tbl)) ->
+  forall vi, inline_version content ps = Some (Some vi) -> from_string content tbl vi.
+Proof.
+  induction ps as [|p t IH]; intros Hsub vi H; [discriminate|]. cbn [inline_version] in H.
+  assert (forall q, In q t -> In q (n_children tbl)) as Hsub' by (intros q Hq; apply Hsub; now right).
+  destruct (kind_is k_pair p); [|now apply IH].
+  destruct (scan_version_pair content (n_children p) false) as [[v|]|] eqn:Es; [|now apply IH|discriminate].
+  injection H as <-. destruct (scan_from _ _ _ _ Es) as [c [H1 [H2 H3]]].
+  apply (from_string_up content p tbl _); [apply Hsub; now left|]. exists c. split; [now apply in_tree_kid|now split].
+Qed.
+Lemma inline_table_version_from content tbl vi : inline_table_version content tbl = Some (Some vi) -> from_string content tbl vi.
+Proof.
+  unfold inline_table_version. destruct (should_skip_inline content tbl) as [[|]|]; cbn [bind]; try discriminate.
+  apply inline_version_from. auto.
+Qed.
+Lemma cargo_fold_from content p cs : (forall c, In c cs -> In c (n_children p)) ->
+  forall st st', fold_opt (cargo_pair_step content) cs st = Some st' ->
+  (forall vi, ps_ver st = Some vi -> from_string content p vi) -> forall vi, ps_ver st' = Some vi -> from_string content p vi.
+Proof.
+  induction cs as [|c t IH]; intros Hsub st st' H Hinv vi Hv.
+  - cbn in H. injection H as <-. now apply Hinv.
+  - cbn [fold_opt] in H. destruct (cargo_pair_step content st c) as [s1|] eqn:E1; [|discriminate]. cbn [bind] in H.
+    apply (IH (fun q Hq => Hsub q (or_intror Hq)) s1 st' H); [|exact Hv].
+    intros v1 Hv1. assert (In c (n_children p)) as Hc by (apply Hsub; now left).
+    unfold cargo_pair_step in E1.
+    destruct (kind_is k_bare_key c).
+    { destruct (node_text content c); [|discriminate]. cbn in E1. injection E1 as <-. cbn in Hv1. now apply Hinv. }
+    destruct (kind_is k_dotted_key c).
+    { destruct (node_text content c) as [tx|]; [|discriminate]. cbn [bind] in E1. destruct (split_once_dot tx) as [[a b]|]; injection E1 as <-; cbn in Hv1; now apply Hinv. }
+    destruct (kind_is k_string c) eqn:Eks.
+    { destruct (ps_dotted st && negb (opt_eqb beq (ps_suffix st) (Some k_version))).
+      - injection E1 as <-. now apply Hinv.
+      - destruct (string_vinfo content c) as [v|] eqn:Ev; [|discriminate]. cbn in E1. injection E1 as <-. cbn in Hv1. injection Hv1 as <-.
+        exists c. split; [now apply in_tree_kid|now split]. }
+    destruct (kind_is k_inline_table c).
+    { destruct (inline_table_version content c) as [v|] eqn:Ev; [|discriminate]. cbn in E1. injection E1 as <-. cbn in Hv1. subst v.
+      apply (from_string_up content c p _ Hc). now apply inline_table_version_from. }
+    injection E1 as <-. now apply Hinv.
+Qed.
+Lemma string_vinfo_structural content root name vi :
+  wf_cst content root = true -> string_nodes_ok content root = true -> from_string content root vi ->
+  let '(v, s, e, l, c) := vi in structural_ok content (mkPkg name v None s e l c None).
+Proof.
+  intros Hwf Hs [vn [Hin [Hk Hv]]].
+  destruct (wf_cst_in content root vn Hwf Hin) as [H1 [H2 H3]].
+  destruct (string_nodes_ok_in content vn root Hs Hin Hk) as [H4 [x [Hx Hx10]]].
+  unfold string_vinfo in Hv. destruct (node_text content vn) as [t|]; [|discriminate]. cbn [bind] in Hv. unfold pred_N in Hv.
+  destruct (n_eb vn =? 0) eqn:E0; [apply N.eqb_eq in E0; lia|]. cbn in Hv. injection Hv as <-. unfold structural_ok. cbn.
+  repeat split; try lia. eapply pos_of_succ; eassumption.
+Qed.
+Theorem cargo_toml_structural content root pkgs :
+  wf_cst content root = true -> string_nodes_ok content root = true ->
+  walk_cargo_toml content root = Some pkgs -> forall p, In p pkgs -> structural_ok content p.
+Proof.
+  intros Hwf Hs Hw p Hin. unfold walk_cargo_toml in Hw.
+  destruct (concat_opt_in _ _ _ _ Hw Hin) as [t [r1 [Ht [Hf1 Hp1]]]].
+  unfold cargo_table in Hf1. destruct (kind_is k_table t); cbn [negb] in Hf1; [|injection Hf1 as <-; destruct Hp1].
+  destruct (n_children t) as [|h rest] eqn:Hch; [injection Hf1 as <-; destruct Hp1|].
+  destruct (kind_is k_lbracket h); cbn [negb] in Hf1; [|injection Hf1 as <-; destruct Hp1].
+  destruct (table_name content t) as [[nm|]|]; cbn [bind] in Hf1; [|injection Hf1 as <-; destruct Hp1|discriminate].
+  destruct (existsb (beq nm) cargo_dependency_tables); [|injection Hf1 as <-; destruct Hp1].
+  rewrite <- Hch in Hf1. destruct (concat_opt_in _ _ _ _ Hf1 Hp1) as [pr [r2 [Hpr [Hf2 Hp2]]]].
+  unfold cargo_pair in Hf2. destruct (kind_is k_pair pr); cbn [negb] in Hf2; [|injection Hf2 as <-; destruct Hp2].
+  destruct (fold_opt (cargo_pair_step content) (n_children pr) (mkPS None None false None)) as [st|] eqn:Ef; [|discriminate]. cbn [bind] in Hf2.
+  destruct (ps_name st) as [name|]; [|injection Hf2 as <-; destruct Hp2].
+  destruct (ps_ver st) as [[[[[v s] e] l] c]|] eqn:Ev; [|injection Hf2 as <-; destruct Hp2].
+  injection Hf2 as <-. destruct Hp2 as [<-|[]].
+  assert (from_string content pr (v, s, e, l, c)) as Hfs.
+  { apply (cargo_fold_from content pr (n_children pr) (fun c0 H => H) _ _ Ef); [|exact Ev]. intros vi Hvi. discriminate. }
+  assert (from_string content root (v, s, e, l, c)) as Hroot.
+  { apply (from_string_up content t root _ Ht). now apply (from_string_up content pr t _ Hpr). }
+  exact (string_vinfo_structural content root name (v, s, e, l, c) Hwf Hs Hroot).
 Qed.
